@@ -10,10 +10,13 @@ import props
 VERIF = os.path.dirname(os.path.dirname(os.path.abspath(__file__)))
 ALL = ["C%02d" % i for i in range(1, 21)]
 
+# run/ready.txt lists the properties whose checks are integrated (reviewed, run against /repo, evidence committed)
+READY = set(open(os.path.join(VERIF, "run", "ready.txt")).read().split())
+
 checks, na = [], []
 for pid in ALL:
     P = props.PROPS.get(pid)
-    if P is None or P.get("disabled"):
+    if P is None or P.get("disabled") or pid not in READY:
         reason = props.NOT_APPLICABLE.get(pid, "check not built yet (work in progress; the design in DESIGN.md section 3 applies)")
         na.append({"property_id": pid, "reason": reason})
         continue
